@@ -141,7 +141,7 @@ static void cmd_mat(kv_t *K)
     S.perm_c = intMalloc(n); S.perm_r = intMalloc(n); S.etree = intMalloc(n); S.colcnt = intMalloc(n); S.part = intMalloc(n);
     S.R = (REAL *) malloc(sizeof(REAL) * (n + 1)); S.C = (REAL *) malloc(sizeof(REAL) * (n + 1));
     for (i = 0; i < n; ++i) { S.perm_c[i] = i; S.perm_r[i] = i; S.R[i] = 1; S.C[i] = 1; }
-    S.have_pc = 1; S.haveLU = 0; S.equed = NOEQUIL;
+    S.have_pc = 1; S.haveLU = 0;      /* (S.equed keeps its value: the caller reuses one equed variable for the next system) */
     vrt_log_raw("\"e\":\"Call\",\"call\":\"mat\",\"n\":%d,\"nnz\":%d,\"stype\":%d,\"sing\":%d,\"live\":%ld", n, S.nnz, S.stype, sing, vrt_mem_live_count());
 }
 
